@@ -91,8 +91,13 @@ def sweep_stale(max_age_s=6 * 3600):
 class Build:
     """A scratch copy of <repo>/src compiled with ASan+UBSan (guard define on)."""
 
-    def __init__(self, repo=None, jobs=16, sanitize=True, keep=False):
+    # documented compile-time knobs of the tree ("Undefine to disable" in src/user.h): a build variant switches one off
+    VARIANTS = {"nodnscache": ("user.h", "#define DNSCACHE_LEN"), "nooutq": ("user.h", "#define OUTPACKETQ_LEN")}
+
+    def __init__(self, repo=None, jobs=16, sanitize=True, keep=False, variant=None):
         self.repo = repo or REPO
+        self.variant = variant
+        self.variant_applied = variant is None
         self.jobs = jobs
         self.sanitize = sanitize
         self.dir = tempfile.mkdtemp(prefix="vf-", dir=SCRATCH_ROOT)
@@ -105,6 +110,13 @@ class Build:
         os.makedirs(self.bin)
         os.makedirs(self.run)
         self._copy_sources()
+        if variant is not None:
+            fn, needle = self.VARIANTS[variant]
+            path = os.path.join(self.src, fn)
+            text = open(path).read()
+            if needle in text:
+                open(path, "w").write(text.replace(needle, "/* verif build variant: undefined */ //" + needle, 1))
+                self.variant_applied = True
         self._objs_done = False
 
     def close(self):
